@@ -454,6 +454,11 @@ def run_job(job, coll):
             # the whole frame in one write, in MSS-sized writes, in 4 KiB writes
             for accept in ([n + 64], [1460] * (n // 1460 + 2), [4096] * (n // 4096 + 2)):
                 coll.check({"mode": "partial", "payload": payload, "accept": accept, "op": 2, "dispatcher": (None, "plain", "wrapped")[i % 3]}, run_case)
+        if job["shard"] == 0:
+            # beyond 1 MiB, too: one send call is still one frame
+            for n in ((1 << 20), (1 << 20) + 1, (2 << 20) + 3):
+                for op in (1, 2):
+                    coll.check({"mode": "partial", "payload": {"rep": b"m", "n": n}, "accept": [65536] * (n // 65536 + 2), "op": op, "dispatcher": None}, run_case)
         coll.exhaustive["(A') structured frame sizes up to 300000 under whole / MSS-sized / 4 KiB writes"] = True
     elif k == "hyp-t":
         hyp_run(coll, thread_cases(), run_case, job["seed"], job["n"])
